@@ -29,7 +29,10 @@ pub fn run(tape: &[u8], cx: &Cx) -> Outcome {
     let (ta, tb) = tape.split_at(tape.len() / 3);
     let mut t = Tape::new(ta);
     let mut tp = Tape::new(tb);
-    let prog = Prog::decode(&mut tp, &cfg().scaled(cx.thorough));
+    // a fifth of the programs are "pattern pairs": a concatenation pattern s with ranges and Sigma*,
+    // a term r derived from it (often included, sometimes a near miss) and their union plus wrappers —
+    // the shapes on which the constructors' subsumption-based pruning acts
+    let prog = if tp.bool_p(50) { crate::p_c16::gen_pair(&mut tp).0 } else { Prog::decode(&mut tp, &cfg().scaled(cx.thorough)) };
     let mut o = Outcome::default();
     o.digest = fnv(&prog.digest_bytes());
     let RxCase { prog, mut mgr, terms, dfas } = match rx::setup(prog.clone()) {
@@ -183,6 +186,9 @@ pub fn run(tape: &[u8], cx: &Cx) -> Outcome {
     }
     if prog.ins.len() >= 6 {
         o.tag(">=6-instructions");
+    }
+    if matches!(prog.ins[0], crate::prog::Ins::Full) && prog.has(|i| matches!(i, crate::prog::Ins::ConcatList(_))) {
+        o.tag("pattern-pair-program");
     }
     o
 }
